@@ -438,6 +438,18 @@ def _ns_edits(a):
         yield ('text', t)
 
 
+def _nested_strules(rules, out=None):
+    """(style rule, its container) for style rules inside @media rules, at any depth"""
+    out = [] if out is None else out
+    for r in rules:
+        if r.type == R.MEDIA_RULE:
+            for n in r.cssRules:
+                if n.type == R.STYLE_RULE:
+                    out.append((n, r))
+            _nested_strules(r.cssRules, out)
+    return out
+
+
 def detached_probe(res, hist, j, edit):
     """style rule j of A is taken out of A; then A's namespaces are edited: the rule, no longer part of A, is not touched,
     and put into B it still denotes the pairs it denoted (depth-2 probe from every state; its target states are not expanded)"""
@@ -445,10 +457,13 @@ def detached_probe(res, hist, j, edit):
     try:
         with guard.watchdog(20):
             a, b, _ = build(hist)
-            rule = _strules(a)[j]
+            if j >= 0:
+                rule, container = _strules(a)[j], a
+            else:
+                rule, container = _nested_strules(a.cssRules)[-j - 1]  # (j = -1, -2 ...: the style rules inside @media rules)
             pairs0 = tuple(pairs(s) for s in rule.selectorList)
             try:
-                a.deleteRule(rule)
+                container.deleteRule(rule)
             except xml.dom.DOMException:
                 return
             text1 = rule.cssText
@@ -536,6 +551,9 @@ def expand(batch, tier, seed):
             for edit in list(_ns_edits(a)):
                 detached_probe(res, hist, j, edit)
             direct_move_probe(res, hist, j)
+        for j in range(len(_nested_strules(a.cssRules))):
+            for edit in list(_ns_edits(a)):
+                detached_probe(res, hist, -j - 1, edit)
         res.sample({'kind': 'history', 'history': [list(h) for h in hist]})
     guard.pristine()
     return res
